@@ -119,6 +119,10 @@ func Assert(c bool, msg string) {
 	}
 }
 
+// Check is Assert without the executor continuing under the asserted
+// condition (independent obligations stay small).
+func Check(c bool, msg string) { Assert(c, msg) }
+
 // Reach is the vacuity guard: the executor requires every label to be
 // reachable on some feasible path.
 func Reach(label string) { reached = append(reached, label) }
@@ -203,6 +207,12 @@ func (e Err) Error() string { return string(e) }
 // feasible path is an obligation failure in the executor. Natively the caller
 // checks the contents itself where needed.
 func ReadOnly(b []byte) {}
+
+// ExactBegin/ExactEnd bracket harness arithmetic that is meant exactly: in
+// the rounded-real reading no rounding error is attached to operations
+// between them. Natively they are no-ops (the native tolerance absorbs it).
+func ExactBegin() {}
+func ExactEnd()   {}
 
 // ExpectPanic tells the executor that panics are acceptable in this harness
 // (they end the path silently). Natively it is a no-op.
